@@ -180,6 +180,7 @@ inductive Stmt (τ : Type) where
   | claim (r : Name) (amounts : List Int) (bind : Name) (body : List (Stmt τ))
   | resChange (r : Name) (kind : Nat) (amounts : List Int)     -- 0 increase, 1 decrease, 2 set
   | logLevels (r : Name)
+  | resPool (order : List Nat)                       -- a throw-away `Resources(**{names in that order})`: logs the order in which its levels iterate
   -- pipe / tickers
   | transfer (p : Name) (total : τ) (throughput : Option τ)
   | interval (period : τ) (maxIter : Nat) (body : List (Stmt τ))
